@@ -255,7 +255,7 @@ def run_check(mod, tier: str, seed: int) -> int:
         if key in reported and len(reported) >= 1:
             continue  # one replay file per oracle class
         reported.add(key)
-        case = o["case"]
+        case = o.get("replay_case") or o["case"]
         try:
             case_min, attempts = minimise(mod, case, v)
         except Exception:
